@@ -520,8 +520,12 @@ class ClientDriver(ReorgDriver):
         if fam in ('stale', 'proofs'):
             self.check_answers(refmp, proofs=(fam == 'proofs'))
         self.check_mempool_invariants('settle')
+        self.extra_settle_checks(refmp)
         self.resume_faults()
         self.w.daemon.frozen = False
+
+    def extra_settle_checks(self, refmp):
+        pass
 
     def check_subscribers(self, refmp):
         """C07 oracle at quiescence."""
